@@ -29,7 +29,7 @@ BOUNDS = {
     "quick": "streams of 3..7 symbolic bytes, <=2 symbolic cuts (3 chunks), separators of 1 and 2 bytes, limits 6..13, both consumers, symbolic per-read fill sizes; resume: junk length L-S-2..L+S+2",
     "thorough": "streams up to 9 symbolic bytes, <=3 cuts, separators 1..3 bytes, more limits/size hints",
 }
-OUTSIDE = "longer streams, >4 chunks, JSON framing (see C01/C06 for raw_parse), file-based serializers (no separator), non-ascii encodings"
+OUTSIDE = "longer streams, >4 chunks, file-based serializers (no separator), non-ascii encodings; JSON raw framing is covered for N <= 3..4 structural bytes only"
 
 
 def _kind(kind: str, seplen: int, limit: int):
@@ -172,6 +172,54 @@ def resume(pre: int, J: int, post: list, seplen: int, limit: int, cuts: int, pat
     return scenario
 
 
+class _EchoDecoder:
+    """stands for json.JSONDecoder.decode in the JSON *framing* obligation: returns the document text without surrounding
+    whitespace (so that what is compared is how raw_parse splits the stream), rejects documents starting with '!'"""
+
+    def decode(self, document):
+        from json import JSONDecodeError
+
+        d = document.strip(" \t\n\r")
+        if len(d) > 0 and d[0] == "!":
+            raise JSONDecodeError("stub", "", 0)
+        return d
+
+
+JSON_ALPHABET = (0x5B, 0x5D, 0x22, 0x5C, 0x20, 0x31, 0x7B, 0x7D)  # [ ] " \ space 1 { }
+
+
+def jsonraw(N: int, cuts: int, first: int = -1, limit: int = 64):
+    """JSONSerializer(use_lines=False): _JSONParser.raw_parse (bracket / quote / escape tracking, plain values, whitespace
+    handling) over N symbolic bytes from the JSON structural alphabet: feeding the stream in pieces yields the same packets and
+    errors as feeding it at once (the limit is far away: every frame is safely within it)."""
+    from easynetwork.serializers.json import JSONSerializer
+
+    def mk():
+        ser = JSONSerializer(use_lines=False, limit=limit)
+        ser._JSONSerializer__decoder = _EchoDecoder()
+        return ser
+
+    def scenario(S):
+        stream = S.bytes_in(N, JSON_ALPHABET, "d")
+        if first >= 0:
+            S.assume(stream[0] == JSON_ALPHABET[first])
+        cs = L.sorted_cuts(S, cuts, N)
+        try:
+            whole, _l1 = L.drive_copy(StreamProtocol(mk()), [stream])
+            pieces, _l2 = L.drive_copy(StreamProtocol(mk()), L.split_at(stream, cs))
+        except Exception as e:  # noqa: BLE001
+            return Outcome(ok=False, skeleton=("exc", type(e).__name__), tags=("exception",), detail={"exception": repr(e)})
+        ok = _eq(whole, pieces)
+        tags = []
+        if len(whole) >= 2:
+            tags.append("multi-frame")
+        if any(k == "err" for k, _ in whole):
+            tags.append("malformed-frame")
+        return Outcome(ok=ok, skeleton=(L.skel(whole), L.skel(pieces)), tags=tuple(tags), detail={"one_shot": whole, "chunked": pieces})
+
+    return scenario
+
+
 def shards(tier: str):
     out = []
 
@@ -194,6 +242,9 @@ def shards(tier: str):
         for path in ("copy", "buf"):
             add(f"diff/raw/S2/{path}/N6c3", "diff", dict(N=6, seplen=2, limit=11, cuts=3, path=path, kind="raw", hint=2), B, cost=5**7)
             add(f"diff/raw/S2/{path}/N6L20", "diff", dict(N=6, seplen=2, limit=20, cuts=2, path=path, kind="raw", hint=2), B, cost=5**6)
+    # ---- JSON raw framing: chunked == one-shot over symbolic structural bytes --------------
+    for first in range(len(JSON_ALPHABET)):
+        add(f"jsonraw/N{3 if quick else 4}/first{first}", "jsonraw", dict(N=3 if quick else 4, cuts=1, first=first), B, cost=8**3)
     # ---- obligation 2: size rejection and resumption ------------------------------------
     for seplen in (1, 2) if quick else (1, 2, 3):
         limit = 2 * seplen + 4  # margin = 3
